@@ -124,6 +124,23 @@ func runScenario(c *vf.Case, kind zoo.Kind) {
 		}
 	}
 
+	// ---- "an arbitrary prior history": several hundred SSRCs seen on one reader (a conference
+	// bridge, SSRC churn, or simply a hostile sender): every per-SSRC structure has that many entries
+	if c.Idx/len(zoo.All)%8 == 3 && !s.stop {
+		m := rg.Remotes[0]
+		nSSRC := r.Pick(150, 300, 400, 700)
+		for k := 0; k < nSSRC && !s.stop; k++ {
+			h := rtp.Header{Version: 2, PayloadType: m.Opts.PT, SequenceNumber: uint16(k), Timestamp: uint32(k), SSRC: 0x51000000 + uint32(k)}
+			pkt, _ := (&rtp.Packet{Header: h, Payload: []byte{1, 2, 3}}).Marshal()
+			out := rg.ReadRTP(m, obs.FeedItem{Data: pkt}, 1500, 0xAA)
+			if s.bad("read-rtp/many-ssrcs", out.Result, "well-formed packet of one more SSRC") {
+				break
+			}
+		}
+		s.advance(300 * time.Millisecond)
+		c.Add("scenarios_with_hundreds_of_ssrcs_on_one_reader", 1)
+	}
+
 	// ---- hostile inputs alternating with probes -----------------------------------
 	n := 100
 	if c.Tier == "thorough" {
